@@ -1,8 +1,9 @@
 (* C04 - entry point of the extracted model: a case is (tag . payload) with
    tag 1 = key processor run, 2 = filter construction history, 3 = registry
-   (KeyBindings + wrappers) history, 4 = global-only wrapper with dynamic is_global. *)
+   (KeyBindings + wrappers) history, 4 = global-only wrapper with dynamic is_global,
+   5 = key processor run with handlers that mutate the registry.  *)
 From Coq Require Import ZArith List Bool.
-From PTK Require Import Lib.Sx Model.C04_KeyProc Model.C04_Filters Model.C04_Registry Model.C04_GlobalDyn.
+From PTK Require Import Lib.Sx Model.C04_KeyProc Model.C04_Filters Model.C04_Registry Model.C04_GlobalDyn Model.C04_KeyProcMut.
 Import ListNotations.
 Open Scope Z_scope.
 
@@ -12,5 +13,6 @@ Definition run_C04 (c : sx) : sx :=
   | L (A 2 :: r) => run_filters r
   | L (A 3 :: r) => run_registry r
   | L (A 4 :: r) => run_globaldyn r
+  | L (A 5 :: r) => run_keyproc_mut r
   | _ => bad_case
   end.
